@@ -110,15 +110,16 @@ def attribute(diag, meta, rs_path):
             "message": msg, "repo_site": src, "gen_line": site_line, "rendered": diag.get("rendered", "")[:3000]}
 
 
-def run_verus_unit(unit, tier, seed):
+def run_verus_unit(unit, tier, seed, prop):
     ucfg = CONF["units"][unit]
     tmpl = os.path.join(HERE, "contracts", ucfg["template"])
-    rs = os.path.join(BUILD, unit + ".rs")
+    os.makedirs(os.path.join(BUILD, prop), exist_ok=True)
+    rs = os.path.join(BUILD, prop, unit + ".rs")
     try:
         meta = extract.generate(REPO, tmpl, rs, rs + ".map.json")
     except extract.ExtractError as e:
         raise Undecided(f"extraction of unit {unit}: {e}")
-    res = verus_run.run(rs, log_dir=os.path.join(BUILD, unit + ".vlog"))
+    res = verus_run.run(rs, log_dir=os.path.join(BUILD, prop, unit + ".vlog"))
     if not res["json_ok"]:
         raise Undecided(f"verus produced no result for {unit}: {res['raw_stderr_tail'][-1500:]}")
     fails, undec = [], []
@@ -154,10 +155,10 @@ def run_verus_unit(unit, tier, seed):
     return {"unit": unit, "meta": meta, "res": res, "fails": uniq, "undecided": undec, "per_fn": per_fn, "rs": rs}
 
 
-def run_canaries(unit):
+def run_canaries(unit, prop):
     ucfg = CONF["units"][unit]
     tmpl = os.path.join(HERE, "contracts", ucfg["template"])
-    rs = os.path.join(BUILD, unit + "_canary.rs")
+    rs = os.path.join(BUILD, prop, unit + "_canary.rs")
     try:
         meta = extract.generate(REPO, tmpl, rs, rs + ".map.json", canary=True)
     except extract.ExtractError as e:
@@ -194,7 +195,8 @@ def find_witness(prop, seed, budget):
     exe, err = replay_bin()
     if not exe:
         return None, "replay crate does not build against the current tree: " + err[-800:]
-    out = os.path.join(BUILD, f"witness-{prop}.json")
+    os.makedirs(os.path.join(BUILD, prop), exist_ok=True)
+    out = os.path.join(BUILD, prop, f"witness-{prop}.json")
     if os.path.exists(out):
         os.remove(out)
     for k in kind:
@@ -256,7 +258,7 @@ def check_property(prop, tier, seed):
     for unit in pcfg["units"]:
         ucfg = CONF["units"][unit]
         if ucfg["kind"] == "verus":
-            ur = run_verus_unit(unit, tier, seed)
+            ur = run_verus_unit(unit, tier, seed, prop)
             checker_cmds.append(ur["res"]["cmd"])
             relevant_fail = [f for f in ur["fails"] if prop in f["tags"]]
             other_fail = [f for f in ur["fails"] if prop not in f["tags"]]
@@ -286,7 +288,7 @@ def check_property(prop, tier, seed):
                 log(f"note: {len(other_fail)} failing obligation(s) in unit {unit} are not tagged {prop}: "
                     + ", ".join(sorted({f['obligation'] for f in other_fail})))
             # vacuity guard (ii): canaries
-            cr = run_canaries(unit)
+            cr = run_canaries(unit, prop)
             canary_reports[unit] = cr
             if cr["verified_unexpectedly"]:
                 undecided.append(f"vacuity: canaries verified in unit {unit}: {cr['verified_unexpectedly']}")
